@@ -2,13 +2,13 @@ CONSTANTS
   RW = {"a"}
   WW = {"b"}
   Kinds = {"ready", "io"}
-  TokModes = {"no", "slow"}
+  TokModes = {"no"}
   MaxPW = 1
   MaxFill = 1
-  AllowShut = FALSE
+  AllowShut = TRUE
   Eager = FALSE
   Strict = FALSE
   Mut = "none"
-  Driver = "poll"
+  Driver = "iour"
 SPECIFICATION FairSpec
 PROPERTIES WokenModuloKnown ServedModuloKnown WokenStrict
